@@ -11,12 +11,15 @@ Import ListNotations.
 Open Scope Z_scope.
 
 (** concrete operations (payloads are integers; [CSplitBy i c] uses the predicate [elem < c]).
-    [CMove i k j k2]: remove_at(k) on treap i, then insert_at(k2, <the item object that was returned>) on treap j. *)
+    [CFrom v ms] / [CInsert i k v ms]: the item is made from the value [v] and then MODIFIED by [ms] (in order) before
+    it is handed to from_item / insert_at — with [ms <> []] it enters the treap with a pending tag ([ms = []]: a fresh item).
+    [CMove i k j k2 ms]: remove_at(k) on treap i, the caller applies [ms] to the item object that was returned, then
+    insert_at(k2, <that object>) on treap j ([ms = []]: handed over untouched). *)
 Inductive cop :=
-| CNew | CFrom (v : Z) | CMerge (i j : nat) | CSplitAt (i : nat) (k : Z) | CSplitBy (i : nat) (c : Z)
-| CInsert (i : nat) (k v : Z) | CRemove (i : nat) (k : Z) | CMod (i : nat) (m : amod)
+| CNew | CFrom (v : Z) (ms : list amod) | CMerge (i j : nat) | CSplitAt (i : nat) (k : Z) | CSplitBy (i : nat) (c : Z)
+| CInsert (i : nat) (k v : Z) (ms : list amod) | CRemove (i : nat) (k : Z) | CMod (i : nat) (m : amod)
 | CFirst (i : nat) | CLast (i : nat) | CCollect (i : nat) | CSize (i : nat) | CAgg (i : nat)
-| CMove (i : nat) (k : Z) (j : nat) (k2 : Z).
+| CMove (i : nat) (k : Z) (j : nat) (k2 : Z) (ms : list amod).
 
 (** a COMPLETE item as the executor prints it (the same six numbers as for every node of the raw shapes):
     element, aggregate, size, and
@@ -39,19 +42,19 @@ Definition out := @output ritem Z Z.
 (** what the list-of-lists specification shows: of a removed item, its element *)
 Definition sout := @output Z Z Z.
 
-Definition conv {T M : Type} (mk : Z -> T) (md : amod -> M) (o : cop) : @op T M Z :=
+Definition conv {T M : Type} (modify : M -> T -> T) (mk : Z -> T) (md : amod -> M) (o : cop) : @op T M Z :=
   match o with
-  | CNew => New | CFrom v => FromItem (mk v) | CMerge i j => Merge i j | CSplitAt i k => SplitAt i k
+  | CNew => New | CFrom v ms => FromItem (mods modify (map md ms) (mk v)) | CMerge i j => Merge i j | CSplitAt i k => SplitAt i k
   | CSplitBy i c => SplitBy i (fun e => e <? c)
-  | CInsert i k v => InsertAt i k (mk v) | CRemove i k => RemoveAt i k | CMod i m => ModifyRoot i (md m)
+  | CInsert i k v ms => InsertAt i k (mods modify (map md ms) (mk v)) | CRemove i k => RemoveAt i k | CMod i m => ModifyRoot i (md m)
   | CFirst i => First i | CLast i => Last i | CCollect i => Collect i | CSize i => Size i | CAgg i => RootAgg i
-  | CMove i k j k2 => Move i k j k2
+  | CMove i k j k2 ms => Move i k j k2 (map md ms)
   end.
 
 (** kind 0 treats every modification as an addition (the harness item does the same) *)
 Definition md0 (m : amod) : Z := match m with MAdd c => c | MSet c => c end.
-Definition to_op0 := conv isz_mk md0.
-Definition to_op1 := conv iaa_mk (fun m => m).
+Definition to_op0 := conv isz_modify isz_mk md0.
+Definition to_op1 := conv iaa_modify iaa_mk (fun m => m).
 
 Definition run0 (ps : list Z) (ops : list cop) :=
   run isz_update isz_push isize isz_modify ix ism [] ps (map to_op0 ops).
@@ -63,7 +66,7 @@ Definition srun1 (ops : list cop) := srun ax amod_act zsum [] (map to_op1 ops).
 (** kind 2: modifications are additions (as for kind 0); the aggregate of the model and of the specification
     is the triple (hash, hB^n, hash of ones); for a root aggregate the executor prints the hash, so those outputs are
     projected on it (a removed item is printed with all three) *)
-Definition to_op2 := conv ihs_mk md0.
+Definition to_op2 := conv ihs_modify ihs_mk md0.
 Definition run2 (ps : list Z) (ops : list cop) :=
   run ihs_update ihs_push hsz ihs_modify hx ihs_agg [] ps (map to_op2 ops).
 Definition srun2 (ops : list cop) := srun hx Z.add hashagg [] (map to_op2 ops).
